@@ -213,7 +213,7 @@ def run(case):
                 return None
             return Z if d.shape == (-1, -1) else np.zeros(d.shape)
         if d.shape == (-1, -1):
-            if np.any(exp != 0):
+            if not close(exp, np.zeros_like(exp)):
                 viol("value", f"{what} returned an unshaped empty carrier but the dense result is non-zero", at, feats=[f"op={what}"])
                 return None
             return Z
@@ -228,7 +228,9 @@ def run(case):
         if allreal and (np.iscomplexobj(td) or d.iscomplex()):
             viol("dtype", f"{what}: complex result from purely real operands", at, feats=[f"op={what}"])
             return None
-        if np.any(np.imag(exp) != 0) and not d.iscomplex():
+        # (an imaginary part at rounding level in the dense shadow -- 3j*(a + b) with a = -b up to one ulp -- is no imaginary part:
+        # the carrier may have cancelled it exactly and dropped the zero dyad)
+        if np.any(np.abs(np.imag(exp)) > 1e-11 * max(1.0, float(np.max(np.abs(exp))) if exp.size else 1.0)) and not d.iscomplex():
             viol("dtype", f"{what}: iscomplex() is False but the result has a non-zero imaginary part", at, feats=[f"op={what}"])
             return None
         return exp
